@@ -62,6 +62,8 @@ var (
 	work    = flag.String("work", "", "scratch directory")
 	frugalBin = flag.String("frugal", "", "path of the frugal binary built from the tree under test")
 	replay  = flag.String("replay", "", "replay file")
+	repoDir = flag.String("repo", "/repo", "tree under test (for lib/go when compiling generated code)")
+	verifDir = flag.String("verif", "/verif", "verification root (helper scripts)")
 )
 
 func main() {
@@ -72,6 +74,10 @@ func main() {
 		runC10(res)
 	case "c18":
 		runC18(res)
+	case "c11":
+		runC11(res)
+	case "c08":
+		runC08(res)
 	default:
 		fmt.Fprintln(os.Stderr, "unknown mode", *mode)
 		os.Exit(2)
